@@ -34,6 +34,7 @@ fn w_sets<G>(ctx: &mut Ctx, enc: &str, g: G, q: &Q, abs: Abs<G::NodeId>, conc: C
 where
     G: IntoNeighbors + Visitable + Copy,
     G::NodeId: PartialEq + Copy + Eq + Hash + std::fmt::Debug,
+    G::Map: Default,
 {
     let r = catch(|| { let mut d = Dfs::new(g, conc(q.s)); let mut v = vec![]; while let Some(x) = d.next(g) { v.push(abs(x)); } list(sorted(v)) });
     ctx.line(&format!("run dfs_set {} enc={}", q.s, enc), &ans(r));
@@ -43,6 +44,12 @@ where
     ctx.line(&format!("run post_set {} enc={}", q.s, enc), &ans(r));
     let r = catch(|| algo::has_path_connecting(g, conc(q.s), conc(q.t), None).to_string());
     ctx.line(&format!("run has_path {} {} enc={}", q.s, q.t, enc), &ans(r));
+    // the same through a workspace that was NOT created from this graph (Default: zero-sized visit map,
+    // resized by Visitable::reset_map) — must give the same answer (keyed as the same request)
+    let r = catch(|| { let mut sp = algo::DfsSpace::default(); algo::has_path_connecting(g, conc(q.s), conc(q.t), Some(&mut sp)).to_string() });
+    ctx.line(&format!("run has_path {} {} enc={}", q.s, q.t, format!("{}/default-space", enc)), &ans(r));
+    let r = catch(|| { let mut d: Dfs<G::NodeId, G::Map> = Dfs::default(); d.reset(g); d.move_to(conc(q.s)); let mut v = vec![]; while let Some(x) = d.next(g) { v.push(abs(x)); } list(sorted(v)) });
+    ctx.line(&format!("run dfs_set {} enc={}", q.s, format!("{}/default-walker", enc)), &ans(r));
     let r = catch(|| algo::is_bipartite_undirected(g, conc(q.s)).to_string());
     ctx.line(&format!("run bipartite {} enc={}", q.s, enc), &ans(r));
     let r = catch(|| {
@@ -63,11 +70,14 @@ fn w_directed<G>(ctx: &mut Ctx, enc: &str, g: G, q: &Q, abs: Abs<G::NodeId>, con
 where
     G: IntoNeighborsDirected + IntoNodeIdentifiers + Visitable + NodeCount + Copy,
     G::NodeId: PartialEq + Copy + Eq + Hash,
+    G::Map: Default,
 {
     let r = catch(|| { let mut t = Topo::new(g); let mut v = vec![]; while let Some(x) = t.next(g) { v.push(abs(x)); } list(sorted(v)) });
     ctx.line(&format!("run topo_set enc={}", enc), &ans(r));
     let r = catch(|| match algo::toposort(g, None) { Ok(v) => format!("ok {}", v.len()), Err(_) => "cycle".into() });
     ctx.line(&format!("run toposort enc={}", enc), &ans(r));
+    let r = catch(|| { let mut sp = algo::DfsSpace::default(); match algo::toposort(g, Some(&mut sp)) { Ok(v) => format!("ok {}", v.len()), Err(_) => "cycle".into() } });
+    ctx.line(&format!("run toposort enc={}", format!("{}/default-space", enc)), &ans(r));
     let r = catch(|| canon_sccs(algo::kosaraju_scc(g), abs));
     ctx.line(&format!("run kosaraju enc={}", enc), &ans(r));
     let r = catch(|| algo::is_cyclic_directed(g).to_string());
